@@ -126,7 +126,7 @@ package s3afero
 //@ ensures           lock:   db.lock == 0
 
 //@ func (*MultiBucketBackend).GetObject$1
-//@ props C09
+//@ props C11 C01 C02 C10 C09
 //@ requires          args:   obj != nil && rerr != nil && f != nil && *f != nil
 //@ ensures           mono:   io_fails >= old(io_fails)
 //@ modifies io_fails
@@ -153,10 +153,18 @@ package s3afero
 //@                             sm_object == strings.Replace(strings.Replace(objectName, "/", "_", -1), "\\", "_", -1) + "-" + hex.EncodeToString(hsum(1, objectName)))
 //@ ensures [C08,C12] short:  imp(rd_len(input) - old(rd_pos(input)) != size, err != nil)
 //@ ensures [C08]     reject: imp(err != nil && !(io_fails > old(io_fails)), fs_creates == old(fs_creates))
+// C10: whatever file an upload creates lies inside the bucket's own directory. Two facts about the
+// path functions are assumed: on this platform FromSlash is the identity, and path.Join(a, b) stays
+// below a when b is non-empty and has no ".." in it (a itself being a clean relative name).
+//@ assume            unixsep: filepath.FromSlash(path.Join(bucketName, objectName)) == path.Join(bucketName, objectName)
+//@                           because the separator of the platform the checks run on is '/'
+//@ assume            joinsub: imp(objectName != "" && !strings.Contains(objectName, ".."), strings.HasPrefix(path.Join(bucketName, objectName), bucketName + "/"))
+//@                           because path.Join cleans the concatenation a + "/" + b, and cleaning only climbs out of a through a ".." segment of b
+//@ ensures [C10]     inside: imp(fs_creates != old(fs_creates), strings.HasPrefix(fs_last_create, bucketName + "/"))
 //@ ensures           lock:   db.lock == 0
 
 //@ func (*MultiBucketBackend).PutObject$1
-//@ props C09
+//@ props C08 C10 C02 C09
 //@ requires          args:   closed != nil && f != nil && *f != nil
 //@ ensures           mono:   io_fails >= old(io_fails)
 //@ modifies io_fails
@@ -165,10 +173,15 @@ package s3afero
 //@ func (*MultiBucketBackend).deleteObjectLocked
 //@ props C02 C10 C09
 //@ requires          inv:    db != nil && db.bucketFs != nil && db.metaStore != nil
-//@ ensures [C02,C10] file:   fs_removes == old(fs_removes) + 1 && fs_last_remove == objp(bucketName, objectName)
+//@ ensures [C02,C10] file:   fs_removes == old(fs_removes) + 1 && fs_last_remove == objp(bucketName, objectName) && fs_removealls == old(fs_removealls)
 //@ ensures [C02]     idem:   imp(io_fails == old(io_fails), ret0 == nil)
 //@ ensures [C02]     gone:   imp(ret0 == nil, !fs_exists(db.bucketFs, objp(bucketName, objectName)))
 //@ ensures [C02,C10] meta:   imp(ret0 == nil, dmeta_count == old(dmeta_count) + 1 && dmeta_bucket == bucketName)
+//@ assume            unixsep: filepath.FromSlash(path.Join(bucketName, objectName)) == path.Join(bucketName, objectName)
+//@                           because the separator of the platform the checks run on is '/'
+//@ assume            joinsub: imp(objectName != "" && !strings.Contains(objectName, ".."), strings.HasPrefix(path.Join(bucketName, objectName), bucketName + "/"))
+//@                           because path.Join cleans the concatenation a + "/" + b, and cleaning only climbs out of a through a ".." segment of b
+//@ ensures [C10]     inside: strings.HasPrefix(fs_last_remove, bucketName + "/")
 //@ modifies fs_exists(db.bucketFs), io_fails, fs_removes, fs_last_remove, dmeta_count, dmeta_bucket, dmeta_object
 
 //@ func (*MultiBucketBackend).DeleteObject
@@ -306,7 +319,7 @@ package s3afero
 //@ ensures           lock:   db.lock == 0
 
 //@ func (*SingleBucketBackend).GetObject$1
-//@ props C09
+//@ props C11 C01 C02 C10 C09
 //@ requires          args:   obj != nil && err != nil && f != nil && *f != nil
 //@ ensures           mono:   io_fails >= old(io_fails)
 //@ modifies io_fails
@@ -334,7 +347,7 @@ package s3afero
 //@ ensures           lock:   db.lock == 0
 
 //@ func (*SingleBucketBackend).PutObject$1
-//@ props C09
+//@ props C08 C10 C02 C09
 //@ requires          args:   closed != nil && f != nil && *f != nil
 //@ ensures           mono:   io_fails >= old(io_fails)
 //@ modifies io_fails
@@ -342,7 +355,7 @@ package s3afero
 //@ func (*SingleBucketBackend).deleteObjectLocked
 //@ props C02 C10 C09
 //@ requires          inv:    db != nil && db.fs != nil && db.metaStore != nil
-//@ ensures [C02,C10] file:   fs_removes == old(fs_removes) + 1 && fs_last_remove == sobjp(objectName)
+//@ ensures [C02,C10] file:   fs_removes == old(fs_removes) + 1 && fs_last_remove == sobjp(objectName) && fs_removealls == old(fs_removealls)
 //@ ensures [C02]     idem:   imp(io_fails == old(io_fails), ret0 == nil)
 //@ ensures [C02]     gone:   imp(ret0 == nil, !fs_exists(db.fs, sobjp(objectName)))
 //@ ensures [C02,C10] meta:   imp(ret0 == nil, dmeta_count == old(dmeta_count) + 1 && dmeta_bucket == bucketName)
